@@ -101,8 +101,34 @@ ResetVsResponseCases == { [cluster |-> cl, script |-> sc, try |-> t, hold |-> "n
 StepCases == LateResetCases \cup ResetVsResponseCases \cup { [cluster |-> cl, script |-> sc, try |-> (t = "ptimer"), hold |-> "none", during |-> "none", hold2 |-> "none", body |-> FALSE,
                 steps |-> StaleTimer(t)] : cl \in {"r1", "r2"}, sc \in {<<"ok">>, <<"hang">>, <<"s503", "ok">>, <<"close">>}, t \in {"ptimer", "gtimer"} }
 
+(* ---- the shape of the request as a dimension of the runs (RequestShape.tla, model: RequestForward.tla) ----
+   A shape case = a form of the request (protocol, wire form, filter operation; `data`/`trailers` = what the forwarding
+   phases of the proxy see, derived by the spec) in an environment.  Whatever the shape: the request ends, with exactly
+   one reply (none for a one-way request), within timeout + slack, and every attempt the pool admitted reached the
+   upstream as one complete request.
+     unguided: every form x { upstream answers | never answers (the global timeout must) | first host refused (doRetry
+               forwards the request again) | first attempt times out per try and is retried }
+     guided  : every two-way form x the single-gate overlaps of Cases0 on the direct cluster at the gates around the
+               wait for the upstream, the timer callbacks and the upstream's answer/reset (gates that do not count
+               processError passes: their position does not depend on how many forwarding phases the shape runs) *)
+RS == INSTANCE RequestShape
+ShapeEnvs == { [cluster |-> "direct", script |-> <<"ok">>, try |-> FALSE], [cluster |-> "direct", script |-> <<"hang">>, try |-> FALSE],
+               [cluster |-> "r1", script |-> <<"ok">>, try |-> FALSE], [cluster |-> "direct", script |-> <<"hang", "ok">>, try |-> TRUE] }
+ShapeGates == {"ds.wait", "ds.woken", "ds.gtimer.fire", "ds.gtimer.cas", "ds.ptimer.fire", "ds.ptimer.cas", "us.recv.guard", "us.recv.cas", "us.reset"}
+ShapeCase(f, e, hold, during) ==
+  [cluster |-> e.cluster, script |-> e.script, try |-> e.try, hold |-> hold, during |-> during, hold2 |-> "none",
+   body |-> (RS!Seen(f).data = "bytes"), proto |-> f.proto, wire |-> f.wire, fop |-> f.fop,
+   data |-> RS!Seen(f).data, trailers |-> RS!Seen(f).trailers]
+UnguidedShapeCases == { ShapeCase(f, e, "none", "none") : f \in RS!Forms, e \in ShapeEnvs } \ 
+                      { x \in { ShapeCase(f, e, "none", "none") : f \in RS!Forms, e \in ShapeEnvs } : x.proto = "boltoneway" /\ x.try }
+GuidedShapeBase == { x \in Cases0 : x.cluster = "direct" /\ x.hold2 = "none" /\ x.hold \in ShapeGates
+                                    /\ x.script \in {<<"ok">>, <<"hang">>, <<"gate">>, <<"gateclose">>} }
+GuidedShapeCases == { ShapeCase(f, x, x.hold, x.during) : f \in { g \in RS!Forms : g.proto # "boltoneway" }, x \in GuidedShapeBase }
+ShapeCases == UnguidedShapeCases \cup GuidedShapeCases
+
 VARIABLE c
 Init == c \in Cases \cup StepCases
+InitShapes == c \in ShapeCases
 Next == UNCHANGED c
 Emit == PrintT(<<"CASE", ToJson(c)>>)
 ====
